@@ -922,9 +922,14 @@ template <class T> static void frustumPairs ()
         std::vector<T> in5{nn, ff, fovx, fovy, asp};
         auto put = [] (Res<T>& q, const FX<T>& g) { q.v.push_back (g.nearPlane ()); q.v.push_back (g.farPlane ()); q.v.push_back (g.left ()); q.v.push_back (g.right ());
                                                     q.v.push_back (g.top ()); q.v.push_back (g.bottom ()); q.i.push_back (g.orthographic ()); };
-        auto c = run<T> ([&] (Res<T>& q) { FX<T> g; g.setExc (nn, ff, fovx, fovy, asp); put (q, g); });
-        auto u = run<T> ([&] (Res<T>& q) { FX<T> g; g.set (nn, ff, fovx, fovy, asp); put (q, g); });
-        check<T> ("Frustum.setExc/set(fov)", 1, c, u, 2, fovx != T (0) && fovy != T (0), in5);
+        // the object that is (re-)initialised may be in ANY prior state: the whole state is the result, so a member that one
+        // of the two copies forgets to overwrite (the orthographic flag, a plane) shows when the prior state differs from the
+        // default-constructed one
+        const bool priorOrtho = rng () % 2 == 0;
+        auto prior = [&] (FX<T>& g) { if (priorOrtho) { g.set (T (3), T (7), T (-2), T (5), T (4), T (-1), true); } };
+        auto c = run<T> ([&] (Res<T>& q) { FX<T> g; prior (g); g.setExc (nn, ff, fovx, fovy, asp); put (q, g); });
+        auto u = run<T> ([&] (Res<T>& q) { FX<T> g; prior (g); g.set (nn, ff, fovx, fovy, asp); put (q, g); });
+        check<T> ("Frustum.setExc/set(fov)", 1, c, u, 2, fovx != T (0) && fovy != T (0), in5, priorOrtho ? "prior-state-orthographic" : "prior-state-default");
     }
 }
 
